@@ -195,6 +195,27 @@ theorem runAll_idleBound (fuel : Nat) (s : State) (h : IdleBound s) : IdleBound 
     · exact h
     · exact ih _ (runTask_idleBound _ _ (idleBound_of_eq h rfl rfl))
 
+/-- dropping the spawned tasks (runtime shutdown) files nothing as idle -/
+theorem abortTask_idle_cfg (s : State) (i : Nat) : (abortTask s i).idle = s.idle ∧ (abortTask s i).cfg = s.cfg := by
+  unfold abortTask
+  split
+  · exact ⟨rfl, rfl⟩
+  · exact ⟨rfl, rfl⟩
+  · split
+    · exact ⟨rfl, rfl⟩
+    · simp
+
+theorem abortAll_idle_cfg (fuel : Nat) (s : State) : (abortAll fuel s).idle = s.idle ∧ (abortAll fuel s).cfg = s.cfg := by
+  induction fuel generalizing s with
+  | zero => exact ⟨rfl, rfl⟩
+  | succ n ih =>
+    unfold abortAll
+    split
+    · exact ⟨rfl, rfl⟩
+    · obtain ⟨a, b⟩ := ih (abortTask s _)
+      obtain ⟨c, d⟩ := abortTask_idle_cfg s _
+      exact ⟨a.trans c, b.trans d⟩
+
 theorem step_idleBound (s : State) (op : Op) (h : IdleBound s) : IdleBound (step s op).1 := by
   cases op with
   | issue r k mux =>
@@ -247,6 +268,7 @@ theorem step_idleBound (s : State) (op : Op) (h : IdleBound s) : IdleBound (step
   | run => exact runAll_idleBound _ _ h
   | tick ms => exact idleBound_of_eq h rfl rfl
   | mark => exact h
+  | shutdown => exact idleBound_of_eq h (abortAll_idle_cfg _ s).1 (abortAll_idle_cfg _ s).2
 
 theorem push_cfg (s : State) (t : Token) (c : ConnId) : (push s t c).cfg = s.cfg := by
   unfold push
@@ -387,6 +409,7 @@ theorem step_cfg (s : State) (op : Op) : (step s op).1.cfg = s.cfg := by
   | run => exact runAll_cfg _ _
   | tick ms => rfl
   | mark => rfl
+  | shutdown => exact (abortAll_idle_cfg _ s).2
 
 /-- **C15.** At no time does the pool retain more idle connections for one origin than
     `max_idle_per_host`: for every configuration, every operation sequence (any length, any
